@@ -12,6 +12,7 @@ import collections, importlib, json, os, random, sys, time, traceback
 from pathlib import Path
 sys.path.insert(0, str(Path(__file__).resolve().parent))
 import common
+sys.path.insert(0, str(common.REPO))   # the tree under test (VERIF_REPO, default /repo) shadows any installed copy
 from common import VERIF, LEAN, EVIDENCE, REPLAYS, Infra
 
 
